@@ -122,7 +122,8 @@ class Session(Thread):
         self.logger.debug('starting main loop')
         self.start()
         # we expect server's hello message, if server doesn't responds in 60 seconds raise exception
-        init_event.wait(timeout)
+        # (SSHSession.connect passes its own timeout on, which is None unless the caller set one)
+        init_event.wait(60 if timeout is None else timeout)
         if not init_event.is_set():
             raise SessionError("Capability exchange timed out")
         # received hello message or an error happened
